@@ -51,7 +51,7 @@ func main() {
 
 // gen: which types and instances depends on the tier and the seed.
 //
-//	quick    : Patient, Observation, Bundle + 24 types rotating with the seed, instance = seed mod 3,
+//	quick    : Patient, Observation, Bundle, SubstancePolymer, StructureDefinition, MedicationRequest + 24 types rotating with the seed, instance = seed mod 3,
 //	           plus the hand-written model resources MR1..MR3, MR5 and 6 randomly thinned instances
 //	thorough : all 146 types (instance number rotating so that every choice alternative index occurs), MR1..MR3, MR5,
 //	           and 40 randomly thinned instances
@@ -75,10 +75,13 @@ func gen(treesPath, resPath string) {
 			jobs = append(jobs, job{t, lib.PopOptions{Inst: rng.Intn(50), Contained: true, Rand: rand.New(rand.NewSource(rng.Int63())), KeepProb: 0.5}, ""})
 		}
 	} else {
-		pick := map[string]bool{"Patient": true, "Observation": true, "Bundle": true}
+		// always: the types whose components share a SHORT message name with a component of another kind (Timing.Repeat is
+		// an Element, SubstancePolymer.Repeat a BackboneElement; ElementDefinition.Mapping / StructureDefinition.Mapping;
+		// SubstanceAmount.ReferenceRange / Observation.ReferenceRange), so that both members of a pair are met in one process
+		pick := map[string]bool{"Patient": true, "Observation": true, "Bundle": true, "SubstancePolymer": true, "StructureDefinition": true, "MedicationRequest": true}
 		perm := rng.Perm(len(types))
 		for _, i := range perm {
-			if len(pick) >= 27 {
+			if len(pick) >= 30 {
 				break
 			}
 			pick[types[i]] = true
@@ -153,6 +156,7 @@ func run(resPath, casesPath, obsPath string) {
 		if err != nil {
 			return err
 		}
+		res = lib.FixModelResource(r.ID, res) // the model resources' corrections (lib/model.go) do not survive the JSON round trip
 		f, err := lib.NewForest(res)
 		if err != nil {
 			return err
